@@ -5,6 +5,7 @@ list vs frequency dictionary, repeated calls (after unrelated calls in the same 
 and with a seed: reproducibility (small inputs with sampling forced, and inputs larger than the sampling
 thresholds) and the global generator left exactly as found."""
 import collections
+import os
 import random
 import warnings
 
@@ -124,6 +125,30 @@ def run(ctx):
                                      'the one-step call gave %r' % (rep, got, base))
             except Exception as e:
                 ctx.fail(case, 'two-step extraction raised %s: %s' % (type(e).__name__, str(e)[:200]))
+        # ---- the same call as the FIRST call of a fresh process (nothing cached by earlier calls) gives the same
+        #      expressions: results must not depend on what rexpy was asked before
+        if it % 50 == 3 and (seed is not None or not sampling):
+            import json
+            import subprocess
+            import sys
+            try:
+                blob = json.dumps({'arg': list(arg), 'opts': opts, 'size': size, 'seed': seed})
+                code = ('import json,sys,io,contextlib\n'
+                        'import tdda.rexpy.rexpy as rx\n'
+                        'd=json.loads(sys.stdin.read())\n'
+                        'size=rx.Size(**d["size"]) if d["size"] else None\n'
+                        'with contextlib.redirect_stdout(io.StringIO()):\n'
+                        '    x=rx.Extractor(d["arg"], size=size, seed=d["seed"], **d["opts"])\n'
+                        'print(json.dumps(list(x.results.rex) if x.results else []))\n')
+                p_ = subprocess.run([lib.PY, '-c', code], input=blob, stdout=subprocess.PIPE, stderr=subprocess.PIPE, text=True,
+                                    env=dict(os.environ, PYTHONPATH=lib.REPO, PYTHONHASHSEED='0'), timeout=120)
+                fresh = json.loads(p_.stdout.strip().split('\n')[-1])
+                ctx.bump('fresh_process_comparisons')
+                if fresh != base:
+                    ctx.fail(case, 'as the first call of a fresh process the expressions are %r; in this process, after other '
+                             'rexpy calls, they are %r' % (fresh, base))
+            except (UnicodeEncodeError, ValueError, IndexError):
+                pass
         if sampling:
             continue            # order / multiplicity comparisons below are for unsampled sizes
         # ---- reordering
